@@ -3650,6 +3650,24 @@ void space_text()
                           __func__, __LINE__, pc->Text(), next->Text());
                   pc->SetFlagBits(PCF_FORCE_SPACE);
                }
+               else if (  kw1
+                       && (  (  next->GetStr()[0] == '\\'
+                             && next->Len() > 1
+                             && (  next->GetStr()[1] == 'u'
+                                || next->GetStr()[1] == 'U'))
+                          || (  next->GetStr().startswith("...")
+                             && pc->Is(CT_NUMBER)
+                             && (  language_is_set(lang_flag_e::LANG_C)
+                                || language_is_set(lang_flag_e::LANG_CPP)
+                                || language_is_set(lang_flag_e::LANG_OC)))))
+               {
+                  // 'class \u005FName' must not become 'class\u005FName' (a universal
+                  // character name continues an identifier) and 'case 1 ... 3' not
+                  // 'case 1... 3' (a '.' continues a preprocessing number)
+                  LOG_FMT(LSPACE, "%s(%d): would continue the word: pc->Text() '%s', next->Text() '%s'\n",
+                          __func__, __LINE__, pc->Text(), next->Text());
+                  pc->SetFlagBits(PCF_FORCE_SPACE);
+               }
                else if (  pc->GetStr()[pc->Len() - 1] == '/'
                        && (  next->GetStr()[0] == '*'
                           || next->GetStr()[0] == '/')
